@@ -44,11 +44,26 @@ type Column struct {
 	Type string `db:"data_type"json:"type"`
 }
 
+// Quotes reserved words and names that an unquoted identifier
+// cannot spell (upper case letters are folded to lower case
+// unless quoted, and inserts address columns by their exact name).
 func quote(s string) string {
 	if _, ok := reservedWords[strings.ToLower(s)]; ok {
 		return strconv.Quote(s)
 	}
+	if s != strings.ToLower(s) {
+		return strconv.Quote(s)
+	}
 	return s
+}
+
+// An index entry is a column name optionally followed by a direction.
+func quoteIndexCol(s string) string {
+	name, dir, found := strings.Cut(s, " ")
+	if !found {
+		return quote(s)
+	}
+	return quote(name) + " " + dir
 }
 
 type Table struct {
@@ -108,7 +123,7 @@ func (t Table) DDL() []string {
 			t.Name,
 		)
 		for i, cname := range cols {
-			createIndex += quote(cname)
+			createIndex += quoteIndexCol(cname)
 			if i+1 == len(cols) {
 				createIndex += ")"
 				break
